@@ -1260,7 +1260,7 @@ seq_t dtw_warping_paths_ndim(seq_t *wps,
     // D. Rows: MAX(overlap_left_ri, overlap_right_ri) < ri <= l1
     // [x 0 0 0 0]
     // [x x 0 0 0]
-    min_ci = MAX(0, p.ri3 + 1 - p.window - p.ldiff );
+    min_ci = MAX(0, p.ri3 + 1 - p.window - p.ldiffr );
     wpsi_start = 2;
     if (p.ri2 == p.ri3) {
         // C is skipped
@@ -1641,7 +1641,7 @@ seq_t dtw_warping_paths_ndim_euclidean(seq_t *wps,
     // D. Rows: MAX(overlap_left_ri, overlap_right_ri) < ri <= l1
     // [x 0 0 0 0]
     // [x x 0 0 0]
-    min_ci = MAX(0, p.ri3 + 1 - p.window - p.ldiff );
+    min_ci = MAX(0, p.ri3 + 1 - p.window - p.ldiffr );
     wpsi_start = 2;
     if (p.ri2 == p.ri3) {
         // C is skipped
@@ -1905,7 +1905,7 @@ void dtw_expand_wps_slice(seq_t *wps, seq_t *full,
     }
 
     // D. Rows: MAX(overlap_left_ri, overlap_right_ri) < ri <= l1
-    min_ci = p.ri3 + 1 - p.window - p.ldiff;
+    min_ci = p.ri3 + 1 - p.window - p.ldiffr;
     wpsi_start = 2;
     if (p.ri2 == p.ri3) {
         // C is skipped
@@ -2140,7 +2140,7 @@ seq_t dtw_warping_paths_affinity_ndim(seq_t *wps,
     // D. Rows: MAX(overlap_left_ri, overlap_right_ri) < ri <= l1
     // [x 0 0 0 0]
     // [x x 0 0 0]
-    min_ci = MAX(0, p.ri3 + 1 - p.window - p.ldiff );
+    min_ci = MAX(0, p.ri3 + 1 - p.window - p.ldiffr );
     wpsi_start = 2;
     if (p.ri2 == p.ri3) {
         // C is skipped
@@ -2478,7 +2478,7 @@ seq_t dtw_warping_paths_affinity_ndim_euclidean(seq_t *wps,
     // D. Rows: MAX(overlap_left_ri, overlap_right_ri) < ri <= l1
     // [x 0 0 0 0]
     // [x x 0 0 0]
-    min_ci = MAX(0, p.ri3 + 1 - p.window - p.ldiff );
+    min_ci = MAX(0, p.ri3 + 1 - p.window - p.ldiffr );
     wpsi_start = 2;
     if (p.ri2 == p.ri3) {
         // C is skipped
@@ -2738,7 +2738,7 @@ void dtw_expand_wps_slice_affinity(seq_t *wps, seq_t *full,
     }
 
     // D. Rows: MAX(overlap_left_ri, overlap_right_ri) < ri <= l1
-    min_ci = p.ri3 + 1 - p.window - p.ldiff;
+    min_ci = p.ri3 + 1 - p.window - p.ldiffr;
     wpsi_start = 2;
     if (p.ri2 == p.ri3) {
         // C is skipped
@@ -3043,7 +3043,7 @@ idx_t dtw_wps_loc(DTWWps* p, idx_t r, idx_t c, idx_t l1, idx_t l2) {
     }
 
     // D.
-    min_ci = MAX(0, p->ri3 + 1 - p->window - p->ldiff);
+    min_ci = MAX(0, p->ri3 + 1 - p->window - p->ldiffr);
     max_ci = l2 + 1;
     wpsi_start = 2;
     if (p->ri2 == p->ri3) {
@@ -3127,7 +3127,7 @@ idx_t dtw_wps_loc_columns(DTWWps* p, idx_t r, idx_t *cb, idx_t *ce, idx_t l1, id
     }
 
     // D.
-    min_ci = MAX(0, p->ri3 + 1 - p->window - p->ldiff);
+    min_ci = MAX(0, p->ri3 + 1 - p->window - p->ldiffr);
     max_ci = l2 + 1;
     wpsi_start = 2;
     if (p->ri2 == p->ri3) {
@@ -3233,7 +3233,7 @@ idx_t dtw_wps_max(DTWWps* p, seq_t *wps, idx_t *r, idx_t *c, idx_t l1, idx_t l2)
     }
 
     // D.
-    min_ci = MAX(0, p->ri3 + 1 - p->window - p->ldiff);
+    min_ci = MAX(0, p->ri3 + 1 - p->window - p->ldiffr);
     max_ci = l2 + 1;
     wpsi_start = 2;
     if (p->ri2 == p->ri3) {
@@ -3294,7 +3294,7 @@ idx_t dtw_best_path(seq_t *wps, idx_t *i1, idx_t *i2, idx_t l1, idx_t l2,
     idx_t ri_width = p.width * rip;
 
     // D. ri3 <= ri < l1
-    min_ci = p.ri3 + 1 - p.window - p.ldiff;
+    min_ci = p.ri3 + 1 - p.window - p.ldiffr;
     wpsi_start = 2;
     if (p.ri2 == p.ri3) {
         wpsi_start = min_ci + 1;
@@ -3532,7 +3532,7 @@ idx_t dtw_best_path_isclose(seq_t *wps, idx_t *i1, idx_t *i2, idx_t l1, idx_t l2
     idx_t ri_width = p.width * rip;
 
     // D. ri3 <= ri < l1
-    min_ci = p.ri3 + 1 - p.window - p.ldiff;
+    min_ci = p.ri3 + 1 - p.window - p.ldiffr;
     wpsi_start = 2;
     if (p.ri2 == p.ri3) {
         wpsi_start = min_ci + 1;
@@ -3793,7 +3793,7 @@ idx_t dtw_best_path_prob(seq_t *wps, idx_t *i1, idx_t *i2, idx_t l1, idx_t l2, s
     // printf("avg = %f\n", avg);
     
     // D. ri3 <= ri < l1
-    min_ci = p.ri3 + 1 - p.window - p.ldiff;
+    min_ci = p.ri3 + 1 - p.window - p.ldiffr;
     wpsi_start = 2;
     if (p.ri2 == p.ri3) {
         // C is skipped
@@ -5087,7 +5087,7 @@ void dtw_print_wps(seq_t * wps, idx_t l1, idx_t l2, DTWSettings* settings) {
     }
     
     // D. Rows: MAX(overlap_left_ri, overlap_right_ri) < ri <= l1
-    min_ci = p.ri3 + 1 - p.window - p.ldiff;
+    min_ci = p.ri3 + 1 - p.window - p.ldiffr;
     wpsi_start = 2;
     if (p.ri2 == p.ri3) {
         // C is skipped
